@@ -41,12 +41,12 @@ func (s *Server) DocumentLink(ctx context.Context, params *protocol.DocumentLink
 		links = append(links, protocol.DocumentLink{
 			Range: protocol.Range{
 				Start: protocol.Position{
-					Line:      uint32(inc.Range.Start.Line - 1),
-					Character: uint32(inc.Range.Start.Column - 1),
+					Line:      uint32(inc.PathRange.Start.Line - 1),
+					Character: uint32(inc.PathRange.Start.Column - 1),
 				},
 				End: protocol.Position{
-					Line:      uint32(inc.Range.End.Line - 1),
-					Character: uint32(inc.Range.End.Column - 1),
+					Line:      uint32(inc.PathRange.End.Line - 1),
+					Character: uint32(inc.PathRange.End.Column - 1),
 				},
 			},
 			Target: target,
